@@ -89,7 +89,8 @@ class PropertyModule:
 
 def build_c(mod, proof, ix):
     cfg = stdshims.default_config()
-    mod.configure(cfg)
+    if not getattr(proof, "own_config", False):      # a proof of a second translation unit may bring its whole boundary configuration
+        mod.configure(cfg)
     if proof.configure:
         proof.configure(cfg)
     contracts = dict(mod.contracts)
